@@ -320,8 +320,10 @@ def slow_reader_interleaved_scenario(sid, bigsize=300000, rounds=6, chunk=50000)
         steps.append(step([_st(op="send", c="c1", reqs=[req(["GET", "@0"], ("B",))])]))
         steps.append(step([_st(op="answer", n="n2", kind="raw", hex=resp_bulk(bytes((i * 3 + r) % 256 for i in range(2000 + 37 * r))).hex())]))
     steps.append(step([_st(op="resume", c="c1")]))
-    steps.append(step([]))
+    # with 8 KB socket buffers one iteration moves a few KB: keep reading until everything has arrived
+    steps += [step([_st(op="readsome", c="c1", count=bigsize)]) for _ in range(4 + bigsize // 40000)]
     steps.append(step([_st(op="answer", n=n, kind="ok", count=4) for n in ("n1", "n2")]))
+    steps += [step([_st(op="readsome", c="c1", count=bigsize)]) for _ in range(3)]
     return {"id": sid, "role": "", "steps": steps}
 
 
@@ -516,7 +518,8 @@ def run_c02(tier, seed):
             for v in r["viol"]:
                 if v["prop"] == "DEAD" or (v["prop"] == "C02" and v["code"] in ("request-bytes-altered", "reply-bytes-altered", "request-delivered-twice", "request-never-reached-a-backend")):
                     viol.append(v)
-                elif v["code"] in ("never-answered", "reply-withheld") and v["prop"] in ("C09", "C15", "C16"):
+                elif v["code"] == "never-answered" and v["prop"] in ("C09", "C15", "C16"):   # (at quiescence; "by the end of the
+                    # iteration" means nothing for a reply of several read buffers)
                     # (these scenarios contain no fault that would excuse it) the node's reply bytes did not reach the client
                     viol.append(dict(v, prop="C02", code="reply-not-delivered:" + v["code"]))
                 else:
